@@ -361,6 +361,22 @@ Definition pkt_decode (l3 : bytes -> dpkt) (frame : bytes) : dres :=
 Definition single_frame_fits (mtu : Z) (o : sopts) (tok : bytes) (inface mark : option N) (wire : bytes) : bool :=
   (lp_frame_length (exact_header o tok inface mark) (zlen wire) <=? mtu)%Z.
 
+(* exactly-once at the forwarder: the deliveries that one received frame causes (all for the same packet), observed on
+   ALL forwarding threads.  No thread gets the packet twice; an Interest goes to exactly one thread; a Data carrying a
+   6-byte PIT token of ours goes to exactly the thread the token names - and to none if that thread does not exist;
+   other Data may go to several threads (one per prefix), each once. *)
+Fixpoint threads_nodup (ts : list N) : bool :=
+  match ts with [] => true | t :: r => negb (existsb (N.eqb t) r) && threads_nodup r end.
+Definition dl_once_ok (n : N) (ds : list delivery) : bool :=
+  match ds with
+  | [] => true
+  | d :: _ =>
+    threads_nodup (map d_thread ds) &&
+    (if d_interest d then (length ds =? 1)%nat
+     else if lenN (d_tok d) =? 6 then (length ds =? 1)%nat && (d_thread d =? be16 (d_tok d)) && (be16 (d_tok d) <? n)
+     else true)
+  end.
+
 Definition is_nil_list {A} (l : list A) : bool := match l with [] => true | _ => false end.
 
 (* (every frame fits, a packet that fits is one frame, oversize + fragmentation off => nothing sent) *)
